@@ -1,4 +1,6 @@
 import OtelVerif.Lemmas.C12
+import OtelVerif.Lemmas.C12Append
+import OtelVerif.Lemmas.C12Loc
 /-!
 # C12 — config resolution: right-biased merge; exact, escapable, terminating expansion
 
@@ -729,5 +731,406 @@ example : resolve (exEnv .fixed) [.map (.cons ['k'] (.str ['$', '{', 'z', 'z', '
     rfl)
 /-- … while the same reference in a value that survives fails it -/
 example : resolveValue (exEnv .fixed) (.str ['$', '{', 'z', 'z', ':', 'A', '}']) = .error [.unsupportedScheme] := rfl
+
+/-! # Round 2 (second session): the feature-gated list-merge path (`confmap.enableMergeAppendOption`, `confmap/merge.go`) -/
+
+/-- key-wise characterisation of `mergeAppend(src = a, dest = b)`: untouched keys survive; two lists are combined by
+`mergeSlice`; two maps merge key by key; everything else (scalars, nil, different kinds) is replaced by the later source -/
+theorem C12_mergeAppend_lookup : ∀ (a b : KVs) (k : Str), a.keys.Nodup →
+    (mergeAppendKVs a b).lookup k = appendAt (a.lookup k) (b.lookup k)
+  | .nil, b, k, _ => by simp [mergeAppendKVs, KVs.lookup, appendAt]
+  | .cons k0 v rest, b, k, hnd => by
+    simp only [KVs.keys, List.nodup_cons] at hnd
+    rw [mergeAppendKVs_cons, C12_mergeAppend_lookup rest _ k hnd.2]
+    by_cases hk : k0 = k
+    · subst hk
+      rw [KVs.lookup_not_mem rest hnd.1, KVs.lookup_set_same]
+      simp only [KVs.lookup, if_true]
+      cases hb : b.lookup k0 with
+      | none => cases v <;> simp [appendAt, appendOne]
+      | some bv => cases v <;> cases bv <;> simp [appendAt, appendOne]
+    · have hk' : k ≠ k0 := fun e => hk e.symm
+      rw [KVs.lookup_set_other _ hk']
+      simp [KVs.lookup, hk]
+
+/-- `mergeSlice(src, dest)` for ALL lists: the old list survives as a prefix, in order; what is appended is a sub-list of
+`src` in `src`'s order; every appended element is new with respect to everything before it (old elements and the ones
+appended earlier — duplicates inside `src` are dropped too); and no element of `src` is lost: it is appended or was present -/
+theorem C12_mergeSlice_spec (src dest : List Val) :
+    ∃ t, mergeSlice src dest = dest ++ t ∧ t.Sublist src ∧ distinctFrom dest t ∧
+      ∀ v ∈ src, isPresent (dest ++ t) v = true ∨ v ∈ t :=
+  foldl_appendNew_spec src dest
+
+/-- merging a list whose elements are all present already changes nothing (the same source given twice is harmless) … -/
+theorem C12_mergeSlice_all_present (src dest : List Val) (h : ∀ v ∈ src, isPresent dest v = true) :
+    mergeSlice src dest = dest := foldl_appendNew_present src dest h
+
+/-- … and a list of pairwise different, new elements is appended as it is -/
+theorem C12_mergeSlice_all_new (src dest : List Val) (h : distinctFrom dest src) :
+    mergeSlice src dest = dest ++ src := foldl_appendNew_distinct src dest h
+
+/-- the URI list is folded as given also with the gate on; an empty source changes nothing -/
+theorem C12_mergeAppend_sources (srcs : List KVs) (s : KVs) :
+    mergeSourcesAppend (srcs ++ [s]) = mergeAppendKVs s (mergeSourcesAppend srcs) ∧
+    mergeSourcesAppend (srcs ++ [.nil]) = mergeSourcesAppend srcs := by
+  refine ⟨mergeSourcesAppend_snoc srcs s, ?_⟩
+  rw [mergeSourcesAppend_snoc]; simp [mergeAppendKVs]
+
+/-- with the gate on, scalars and nils of the last source still win; a list of the last source wins over a non-list -/
+theorem C12_mergeAppend_last_source_wins (srcs : List KVs) (s : KVs) (k : Str) (v : Val) (hk : s.keys.Nodup)
+    (hv : s.lookup k = some v) (hm : ∀ m, v ≠ .map m) (hl : ∀ l, v ≠ .list l) :
+    (mergeSourcesAppend (srcs ++ [s])).lookup k = some v := by
+  rw [mergeSourcesAppend_snoc, C12_mergeAppend_lookup s _ k hk, hv]
+  cases v <;> first | rfl | exact absurd rfl (hm _) | exact absurd rfl (hl _)
+
+/-- `Resolve` END TO END with the gate on: under every leaf path of the `mergeAppend`-merged sources the result holds
+`resolveValue` of the merged value (same flatten / sorted order / per-key loop / unflatten as with the gate off) -/
+theorem C12_resolveAppend_lookup (env : Env) (srcs : List Val) (ms : List KVs) (m : KVs)
+    (h : resolveAppend env srcs = .ok m) (hm : srcs.mapM asConf = some ms) (hs : ∀ s ∈ ms, HNK s) :
+    ∀ a ∈ flatten [] (mergeSourcesAppend ms), ∃ v', resolveValue env a.2 = .ok v' ∧ lookupPath a.1 m = some v' := by
+  unfold resolveAppend at h
+  simp only [hm] at h
+  cases hl : resolveLeaves env (sortedLeaves (mergeSourcesAppend ms)) with
+  | error e => simp [hl] at h
+  | ok leaves =>
+    simp only [hl, Except.ok.injEq] at h
+    subst h
+    exact resolved_leaves_lookup env _ (HNK_mergeSourcesAppend ms hs) leaves hl
+
+/-- … and it can only fail because a source is not a map or because a value that survives the merge fails to resolve -/
+theorem C12_resolveAppend_error_from_merged_leaf (env : Env) (srcs : List Val) (e : Errs)
+    (h : resolveAppend env srcs = .error e) :
+    srcs.mapM asConf = none ∨
+    ∃ ms, srcs.mapM asConf = some ms ∧ ∃ l ∈ flatten [] (mergeSourcesAppend ms), resolveValue env l.2 = .error e := by
+  unfold resolveAppend at h
+  cases hm : srcs.mapM asConf with
+  | none => exact .inl rfl
+  | some ms =>
+    right
+    simp only [hm] at h
+    cases hl : resolveLeaves env (sortedLeaves (mergeSourcesAppend ms)) with
+    | ok leaves => simp [hl] at h
+    | error e' =>
+      simp only [hl, Except.error.injEq] at h
+      subst h
+      obtain ⟨l, hl1, hl2⟩ := resolveLeaves_error env _ _ hl
+      exact ⟨ms, rfl, l, (List.mergeSort_perm _ _).mem_iff.1 hl1, hl2⟩
+
+/-! non-vacuity: `extensions: [a, b]` + `extensions: [a, {m: 1}, c, c]` under the gate -/
+def exListD : Vals := .cons (.str ['a']) (.cons (.str ['b']) .nil)
+def exListS : Vals := .cons (.str ['a']) (.cons (.map (.cons ['m'] (.int 1) .nil)) (.cons (.str ['c']) (.cons (.str ['c']) .nil)))
+example : mergeSlice exListS.toList exListD.toList =
+    [.str ['a'], .str ['b'], .map (.cons ['m'] (.int 1) .nil), .str ['c']] := by rfl
+example : (mergeAppendKVs (.cons ['e'] (.list exListS) (.cons ['x'] (.int 2) .nil))
+    (.cons ['e'] (.list exListD) (.cons ['x'] (.list exListD) .nil))).lookup ['e'] =
+    some (.list (Vals.ofList [.str ['a'], .str ['b'], .map (.cons ['m'] (.int 1) .nil), .str ['c']])) := by rfl
+example : distinctFrom exListD.toList [.str ['c'], .int 1] := by
+  simp [distinctFrom, exListD, Vals.toList, isPresent, valEq]
+example : ∀ v ∈ [Val.str ['a'], .str ['b']], isPresent exListD.toList v = true := by decide
+/-- map elements compare key-wise, whatever the key order -/
+example : valEq (.map (.cons ['a'] (.int 1) (.cons ['b'] .null .nil))) (.map (.cons ['b'] .null (.cons ['a'] (.int 1) .nil))) = true := by
+  decide
+example : mergeSourcesAppend [.cons ['l'] (.list exListD) .nil, .cons ['l'] (.list exListS) .nil] =
+    .cons ['l'] (.list (Vals.ofList [.str ['a'], .str ['b'], .map (.cons ['m'] (.int 1) .nil), .str ['c']])) .nil := by rfl
+example : [Val.map (.cons ['l'] (.list exListD) .nil), .map (.cons ['l'] (.list exListS) .nil)].mapM asConf =
+    some [.cons ['l'] (.list exListD) .nil, .cons ['l'] (.list exListS) .nil] ∧
+    ∀ s ∈ [KVs.cons ['l'] (.list exListD) .nil, .cons ['l'] (.list exListS) .nil], HNK s := by
+  refine ⟨rfl, ?_⟩
+  intro s hs
+  simp only [List.mem_cons, List.not_mem_nil, or_false] at hs
+  rcases hs with rfl | rfl <;> simp [HNK, HN, KVs.keys]
+
+/-! # Round 2 (second session): `NewResolver` — locations of the URI list -/
+
+open OtelVerif.Gen
+
+/-- TIE of the hand-written scheme test to the source: `validScheme` is the anchored match of the `schemePattern`
+classes regenerated from `confmap/expand.go` by `translators/cmd/c12consts` (a change of the pattern breaks this proof) -/
+theorem C12_validScheme_is_schemePattern (s : Str) : validScheme s = matchClasses C12Consts.schemeClasses s :=
+  validScheme_eq_gen s
+
+/-- the shapes of the straight-line code the model mirrors, as regenerated from the source on every run: loop bound,
+type-switch cases of `expandValue` / `escapeDollarSigns`, the `$$ → $` replacement, first-`}` / last-`${` search, the odd-count
+escape test, the `:` / `$` tests of `expandURI`, unanchored provider-scheme check, `mergeAppend`'s Kind switch, `DeepEqual` -/
+theorem gen_source_shape :
+    C12Consts.loopBound = 1000 ∧ C12Consts.uriRegexpAnchored = true ∧
+    C12Consts.expandValueCases = ["expandedValue", "string", "[]any", "map[string]any"] ∧
+    C12Consts.escapeDollarSignsCases = ["string", "expandedValue", "[]any", "map[string]any", "default"] ∧
+    C12Consts.escapeDollarSignsCalls = ["ReplaceAll:$$:$", "ReplaceAll:$$:$"] ∧
+    C12Consts.expandValueCalls = ["Contains:${", "Contains:}"] ∧
+    C12Consts.findURICalls = ["Index:}", "LastIndex:${", "Contains::", "Contains:}", "Contains:}"] ∧
+    C12Consts.expandURICalls = ["Contains::", "Contains:$"] ∧
+    C12Consts.findURIParity = "count%2==1;" ∧
+    C12Consts.providerSchemeCheck = "MatchString;" ∧
+    C12Consts.mergeAppendKinds = ["reflect.Array,reflect.Slice", "reflect.Map", "default"] ∧
+    C12Consts.isPresentCompare = "DeepEqual;" ∧
+    C12Consts.fileScheme = ['f', 'i', 'l', 'e'] ∧ C12Consts.driverLetterRanges = [(65, 122)] := by decide
+
+/-- a URI with a `:` that is not a drive-letter path is handed to its provider VERBATIM (`location.asString` gives the URI
+back), its scheme is a valid scheme (the text before the FIRST `:`) and is registered — or `NewResolver` fails -/
+theorem C12_location_verbatim (provs : List Str) (uri : Str) (l : Loc)
+    (hd : driverLetter uri = false) (hc : hasColon uri = true) (h : uriLocation provs uri = .ok l) :
+    l.asString = uri ∧ validScheme l.scheme = true ∧ provs.contains l.scheme = true := by
+  unfold uriLocation at h
+  simp only [hd, hc, Bool.not_true, Bool.or_self, Bool.false_eq_true, if_false] at h
+  unfold newLocation at h
+  cases hs : splitColon uri with
+  | none => simp [hs] at h
+  | some p =>
+    obtain ⟨sc, op⟩ := p
+    simp only [hs] at h
+    by_cases hv : validScheme sc = true
+    · simp only [hv, if_true] at h
+      by_cases hp : sc ∈ provs
+      · simp only [List.contains_iff_mem, hp, if_true, Except.ok.injEq] at h
+        subst h
+        exact ⟨(splitColon_join uri sc op hs).symm, hv, by simpa using hp⟩
+      · simp [hp] at h
+    · simp [hv] at h
+
+/-- a location without `:` or with a drive letter (`C:\…`) becomes `file:<the whole text>`; `NewResolver` never rejects it -/
+theorem C12_location_file (provs : List Str) (uri : Str) (h : driverLetter uri = true ∨ hasColon uri = false) :
+    uriLocation provs uri = .ok ⟨C12Consts.fileScheme, uri⟩ ∧
+    (Loc.mk C12Consts.fileScheme uri).asString = C12Consts.fileScheme ++ ':' :: uri := by
+  refine ⟨?_, rfl⟩
+  unfold uriLocation
+  rcases h with h | h <;> simp [h]
+
+/-- the backwards-compatibility rule `^[A-z]:` never shadows a URI that has a scheme: whatever it captures (the class also
+holds `[ \ ] ^ _` and the back-quote) could not have been parsed by `newLocation` — a scheme has at least two characters -/
+theorem C12_driveletter_never_shadows_scheme (uri : Str) (h : driverLetter uri = true) : newLocation uri = none := by
+  match uri, h with
+  | c :: d :: r, h =>
+    simp only [driverLetter, Bool.and_eq_true, beq_iff_eq] at h
+    obtain ⟨h1, rfl⟩ := h
+    have hc : c ≠ ':' := by
+      rintro rfl
+      rw [colon_not_driverLetter] at h1; cases h1
+    simp [newLocation, splitColon, hc, validScheme]
+
+/-- `NewResolver` keeps the URI list as given: one location per URI, in order (no de-duplication, no re-ordering) -/
+theorem uriLocations_pointwise (provs : List Str) : ∀ (uris : List Str) (locs : List Loc),
+    uriLocations provs uris = .ok locs → Pointwise (fun u l => uriLocation provs u = .ok l) uris locs
+  | [], locs, h => by simp [uriLocations] at h; subst h; exact .nil
+  | u :: us, locs, h => by
+    simp only [uriLocations] at h
+    cases h1 : uriLocation provs u with
+    | error e => simp [h1] at h
+    | ok l =>
+      simp only [h1] at h
+      cases h2 : uriLocations provs us with
+      | error e => simp [h2] at h
+      | ok ls =>
+        simp only [h2, Except.ok.injEq] at h
+        subst h
+        exact .cons h1 (uriLocations_pointwise provs us ls h2)
+
+theorem C12_newResolver_locations (set : Settings) (locs : List Loc) (h : newResolver set = .ok locs) :
+    Pointwise (fun u l => uriLocation set.provSchemes u = .ok l) set.uris locs ∧
+    set.uris ≠ [] ∧ set.provSchemes ≠ [] ∧
+    (set.defaultScheme = [] ∨ set.provSchemes.contains set.defaultScheme = true) := by
+  unfold newResolver at h
+  by_cases h1 : set.uris.isEmpty = true
+  · simp [h1] at h
+  by_cases h2 : set.provSchemes.isEmpty = true
+  · simp [h1, h2] at h
+  simp only [h1, h2, Bool.false_eq_true, if_false] at h
+  cases h3 : checkProviders [] set.provSchemes with
+  | some e => simp [h3] at h
+  | none =>
+    simp only [h3] at h
+    by_cases h4 : set.defaultScheme = []
+    · simp only [h4, List.isEmpty_nil, Bool.not_true, Bool.false_and, Bool.false_eq_true, if_false] at h
+      exact ⟨uriLocations_pointwise _ _ _ h, by intro e; simp [e] at h1, by intro e; simp [e] at h2, .inl h4⟩
+    · by_cases h5 : set.defaultScheme ∈ set.provSchemes
+      · have h6 : (!set.defaultScheme.isEmpty && !set.provSchemes.contains set.defaultScheme) = false := by simp [h5]
+        simp only [h6, Bool.false_eq_true, if_false] at h
+        exact ⟨uriLocations_pointwise _ _ _ h, by intro e; simp [e] at h1, by intro e; simp [e] at h2,
+          .inr (by simpa using h5)⟩
+      · simp [h4, h5] at h
+
+/-- `Resolve` retrieves the locations in the given order, each with its `asString`, none skipped, while their schemes are
+registered (only a `file` location can lack a provider: `NewResolver` does not check it) -/
+theorem C12_retrieveAll_in_order (provs : List Str) : ∀ (locs : List Loc),
+    (∀ l ∈ locs, provs.contains l.scheme = true) → retrieveAll provs locs = (locs.map Loc.asString, true)
+  | [], _ => rfl
+  | l :: ls, h => by
+    have h1 := h l (List.mem_cons_self ..)
+    simp only [retrieveAll, h1, if_true, List.map_cons]
+    rw [C12_retrieveAll_in_order provs ls (fun x hx => h x (List.mem_cons_of_mem _ hx))]
+
+/-! # Round 2 (second session): the `closers` bookkeeping — every retrieved value's `Close` is called exactly once -/
+
+/-- for EVERY sequence of `Resolve` (succeeding, failing half-way, or failing to close) and `Shutdown` calls: the ids of all
+successful `Retrieve` calls so far are `closed ++ pending`, each exactly once and in retrieval order — no `Close` is called
+twice, none before its value was retrieved, none is forgotten -/
+theorem C12_closers_exactly_once (ls : List LifeLabel) :
+    let s := Life.run {} ls
+    s.closed ++ s.pending = List.range s.next ∧ (s.closed ++ s.pending).Nodup := by
+  have h := Life.inv_run ls {} Life.inv_init
+  unfold Life.Inv at h
+  exact ⟨h, h ▸ List.nodup_range⟩
+
+/-- after `Shutdown` nothing is pending: every value retrieved during the resolver's life was closed exactly once -/
+theorem C12_closers_after_shutdown (ls : List LifeLabel) :
+    let s := Life.run {} (ls ++ [.shutdown])
+    s.pending = [] ∧ s.closed = List.range s.next := by
+  have h := Life.inv_run (ls ++ [.shutdown]) {} Life.inv_init
+  unfold Life.Inv at h
+  have hp : (Life.run {} (ls ++ [.shutdown])).pending = [] := by
+    simp [Life.run, List.foldl_append, Life.fire, Life.closeAll]
+  refine ⟨hp, ?_⟩
+  rw [hp, List.append_nil] at h
+  exact h
+
+/-- a re-`Resolve` first closes everything the previous calls retrieved (before it retrieves anything), and what is pending
+afterwards are exactly its own `n` retrievals (none when closing failed) -/
+theorem C12_closers_reresolve (ls : List LifeLabel) (cf : Bool) (n : Nat) :
+    let s := Life.run {} ls
+    let s' := s.fire (.resolve cf n)
+    s'.closed = List.range s.next ∧ s'.pending = if cf then [] else (List.range n).map (s.next + ·) := by
+  have h := Life.inv_run ls {} Life.inv_init
+  unfold Life.Inv at h
+  cases cf <;> simp [Life.fire, Life.closeAll, h]
+
+/-! non-vacuity -/
+example : uriLocation [['e', 'n', 'v'], ['f', 'i', 'l', 'e']] ['e', 'n', 'v', ':', 'A', ':', 'b'] = .ok ⟨['e', 'n', 'v'], ['A', ':', 'b']⟩ := by rfl
+example : driverLetter ['C', ':', '\\', 'x'] = true ∧ driverLetter ['_', ':', 'x'] = true ∧ driverLetter ['e', 'n', 'v', ':'] = false := by decide
+example : newResolver ⟨[['C', ':', '\\', 'x'], ['c', 'f', 'g'], ['e', 'n', 'v', ':', 'A']], [['e', 'n', 'v']], []⟩ =
+    .ok [⟨['f', 'i', 'l', 'e'], ['C', ':', '\\', 'x']⟩, ⟨['f', 'i', 'l', 'e'], ['c', 'f', 'g']⟩, ⟨['e', 'n', 'v'], ['A']⟩] := by rfl
+/-- the unanchored provider-scheme check: `1ab` passes (it contains `ab`), `a` does not -/
+example : checkProviders [] [['1', 'a', 'b']] = none ∧ checkProviders [] [['a']] = some .invalidProviderScheme := by decide
+example : Life.run {} [.resolve false 2, .resolve false 3, .resolve true 1, .resolve false 1, .shutdown] =
+    { next := 6, pending := [], closed := [0, 1, 2, 3, 4, 5] } := by decide
+
+/-! # Round 2 (second session): the public entry point end to end — `NewResolver(settings)` then `Resolve` refines `resolve` -/
+
+/-- END-TO-END REFINEMENT: whenever `NewResolver(settings)` + `Resolve` (gate off or on) succeeds with `m`, the URI list was turned
+into locations one by one in the given order (`C12_newResolver_locations`: verbatim or the `file` fall-back), every location was
+retrieved from a registered provider with `location.asString`, and `m` is `resolve` / `resolveAppend` of the values retrieved, in
+that order — so every clause proved about `resolve` (`C12_resolve_lookup`, `C12_resolve_error_from_merged_leaf`, the merge and
+expansion theorems) holds for what the public API returns -/
+theorem C12_resolveSettings_refines (gate : Bool) (set : Settings) (fetch : Str → Option Val) (env : Env) (m : KVs)
+    (h : resolveSettings gate set fetch env = .ok m) :
+    ∃ locs srcs, newResolver set = .ok locs ∧ locs.mapM (fun l => fetch l.asString) = some srcs ∧
+      (∀ l ∈ locs, set.provSchemes.contains l.scheme = true) ∧ resolveGate gate env srcs = .ok m := by
+  unfold resolveSettings at h
+  cases hn : newResolver set with
+  | error e => simp [hn] at h
+  | ok locs =>
+    simp only [hn] at h
+    cases hr : retrieveMerge gate set.provSchemes fetch locs .nil with
+    | error e => simp [hr] at h
+    | ok merged =>
+      simp only [hr] at h
+      obtain ⟨srcs, ms, h1, h2, h3, h4⟩ := retrieveMerge_ok gate _ fetch locs .nil merged hr
+      refine ⟨locs, srcs, rfl, h1, h3, ?_⟩
+      cases hl : resolveLeaves env (sortedLeaves merged) with
+      | error e => simp [hl] at h
+      | ok leaves =>
+        simp only [hl, Except.ok.injEq] at h
+        cases gate with
+        | true =>
+          have hm : merged = mergeSourcesAppend ms := by simpa [mergeSourcesAppend] using h4
+          simp [resolveGate, resolveAppend, h2, ← hm, hl, h]
+        | false =>
+          have hm : merged = mergeSources ms := by simpa [mergeSources] using h4
+          simp [resolveGate, resolve, h2, ← hm, hl, h]
+
+def exSet : Settings := ⟨[['s', 'r', ':', 'x'], ['c', 'f', 'g']], [['s', 'r'], ['f', 'i', 'l', 'e']], []⟩
+def exFetch : Str → Option Val := fun u => if u = ['s', 'r', ':', 'x'] then some (.map (.cons ['k'] (.int 1) .nil)) else some .null
+example : resolveSettings true exSet exFetch (exEnv .fixed) = .ok (.cons ['k'] (.int 1) .nil) := by
+  have h1 : newResolver exSet = .ok [⟨['s', 'r'], ['x']⟩, ⟨['f', 'i', 'l', 'e'], ['c', 'f', 'g']⟩] := by rfl
+  have h2 : retrieveMerge true exSet.provSchemes exFetch [⟨['s', 'r'], ['x']⟩, ⟨['f', 'i', 'l', 'e'], ['c', 'f', 'g']⟩] .nil =
+      .ok (.cons ['k'] (.int 1) .nil) := by rfl
+  have h3 : sortedLeaves (.cons ['k'] (.int 1) .nil) = [([['k']], .int 1)] := by
+    simp [sortedLeaves, flatten]
+  simp only [resolveSettings, h1, h2, h3]
+  rfl
+/-- `s:x` looks like a drive letter: it becomes `file:s:x`, and without a `file` provider `Resolve` cannot retrieve it -/
+example : resolveSettings false ⟨[['s', ':', 'x']], [['s', 'r']], []⟩ (fun _ => some .null) (exEnv .fixed) =
+    .error .cannotRetrieve := by rfl
+
+/-! # Round 2 (second session): reference cycles of ANY length (A → B → … → A), whole-value and embedded -/
+
+def refStr (body : Str) : Str := '$' :: '{' :: body ++ ['}']
+
+/-- reference CYCLES OF ANY LENGTH through whole values -/
+theorem C12_whole_value_chain_error (env : Env) (b : Nat → Str)
+    (hb : ∀ j, hasDollar (b j) = false ∧ hasClose (b j) = false ∧
+      (env.defaultScheme.isSome = true ∨ hasColon (b j) = true))
+    (hexp : ∀ j, ∃ r, expandURI env (b j) = .ok r ∧ r.raw = .str (refStr (b (j + 1))) ∧
+      r.asString = some (refStr (b (j + 1)))) :
+    resolveValue env (.str (refStr (b 0))) = .error [.tooMany] := by
+  let P : Val → Prop := fun v => ∃ j, v = .str (refStr (b j)) ∨ v = .expanded (.str (refStr (b j))) (refStr (b j))
+  have hstr : ∀ j, expandValue env (.str (refStr (b j))) =
+      .ok (.expanded (.str (refStr (b (j + 1)))) (refStr (b (j + 1))), true) := by
+    intro j
+    obtain ⟨r, h1, h2, h3⟩ := hexp j
+    have := expandStr_whole env (b j) r (hb j).1 (hb j).2.1 (hb j).2.2 h1
+    rw [h3, h2] at this
+    rw [expandValue]; exact this
+  have hstep : ∀ v, P v → ∃ v', expandValue env v = .ok (v', true) ∧ P v' := by
+    rintro v ⟨j, rfl | rfl⟩
+    · exact ⟨_, hstr j, j + 1, .inr rfl⟩
+    · refine ⟨.expanded (.str (refStr (b (j + 1)))) (refStr (b (j + 1))), ?_, j + 1, .inr rfl⟩
+      rw [expandValue, hstr j]
+  unfold resolveValue
+  rw [C12_always_changed_error env P hstep env.fuel _ ⟨0, .inl rfl⟩]
+
+/-- … and through EMBEDDED references -/
+theorem C12_embedded_chain_error (env : Env) (hmode : env.mode = .fixed) (b vpre vpost : Nat → Str)
+    (hb : ∀ j, hasDollar (b j) = false ∧ hasClose (b j) = false ∧
+      (env.defaultScheme.isSome = true ∨ hasColon (b j) = true))
+    (hexp : ∀ j, ∃ r, expandURI env (b j) = .ok r ∧
+      r.asString = some (vpre j ++ refStr (b (j + 1)) ++ vpost j))
+    (hv : ∀ j, hasDollar (vpre j) = false ∧ hasClose (vpre j) = false)
+    (pre post : Str) (hp : hasDollar pre = false) (hpc : hasClose pre = false)
+    (hemb : (pre.isEmpty && post.isEmpty) = false) :
+    resolveValue env (.str (pre ++ refStr (b 0) ++ post)) = .error [.tooMany] := by
+  let P : Val → Prop := fun v => ∃ j p q, v = .str (p ++ '$' :: '{' :: b j ++ '}' :: q) ∧
+    hasDollar p = false ∧ hasClose p = false ∧ (p.isEmpty && q.isEmpty) = false
+  have hstep : ∀ v, P v → ∃ v', expandValue env v = .ok (v', true) ∧ P v' := by
+    rintro v ⟨j, p, q, rfl, h1, h2, h3⟩
+    obtain ⟨r, hr1, hr2⟩ := hexp j
+    have hf := findURI_at env.mode env.defaultScheme.isSome p (b j) q h1 h2 (hb j).1 (hb j).2.1 (hb j).2.2
+    have := (C12_embedded_substituted env hmode _ p (b j) q _ r hf h3 hr1 hr2).1
+    refine ⟨_, this, j + 1, p ++ vpre j, vpost j ++ q, by simp [refStr], ?_, ?_, ?_⟩
+    · rw [hasDollar_append, h1, (hv j).1]; rfl
+    · rw [hasClose_append, h2, (hv j).2]; rfl
+    · cases p <;> cases q <;> simp_all
+  unfold resolveValue
+  rw [C12_always_changed_error env P hstep env.fuel _ ⟨0, pre, post, by simp [refStr], hp, hpc, hemb⟩]
+
+/-- non-vacuity: the 2-cycle A → B → A, through whole values and embedded -/
+def cycB (j : Nat) : Str := if j % 2 = 0 then ['e', 'e', ':', 'A'] else ['e', 'e', ':', 'B']
+def cycEnv (emb : Bool) : Env :=
+  { schemes := [['e', 'e']], defaultScheme := none,
+    prov := fun _ nm =>
+      let w := fun (s : Str) => if emb then 'x' :: s ++ ['y'] else s
+      if nm = ['A'] then some ⟨.str (w (refStr (cycB 1))), some (w (refStr (cycB 1)))⟩
+      else if nm = ['B'] then some ⟨.str (w (refStr (cycB 0))), some (w (refStr (cycB 0)))⟩
+      else none }
+
+theorem cycB_succ (j : Nat) : (j % 2 = 0 ∧ cycB j = cycB 0 ∧ cycB (j + 1) = cycB 1) ∨
+    (j % 2 = 1 ∧ cycB j = cycB 1 ∧ cycB (j + 1) = cycB 0) := by
+  rcases Nat.mod_two_eq_zero_or_one j with h | h
+  · left; have h' : (j + 1) % 2 = 1 := by omega
+    simp [cycB, h, h']
+  · right; have h' : (j + 1) % 2 = 0 := by omega
+    simp [cycB, h, h']
+
+example : resolveValue (cycEnv false) (.str (refStr ['e', 'e', ':', 'A'])) = .error [.tooMany] :=
+  C12_whole_value_chain_error (cycEnv false) cycB
+    (fun j => by rcases cycB_succ j with ⟨_, h, _⟩ | ⟨_, h, _⟩ <;> rw [h] <;> decide)
+    (fun j => by
+      rcases cycB_succ j with ⟨_, h1, h2⟩ | ⟨_, h1, h2⟩ <;> rw [h1, h2] <;> exact ⟨_, rfl, rfl, rfl⟩)
+
+example : resolveValue (cycEnv true) (.str ('h' :: refStr ['e', 'e', ':', 'A'] ++ [])) = .error [.tooMany] :=
+  C12_embedded_chain_error (cycEnv true) rfl cycB (fun _ => ['x']) (fun _ => ['y'])
+    (fun j => by rcases cycB_succ j with ⟨_, h, _⟩ | ⟨_, h, _⟩ <;> rw [h] <;> decide)
+    (fun j => by
+      rcases cycB_succ j with ⟨_, h1, h2⟩ | ⟨_, h1, h2⟩ <;> rw [h1, h2] <;> exact ⟨_, rfl, rfl⟩)
+    (fun _ => by decide) ['h'] [] (by decide) (by decide) (by decide)
 
 end OtelVerif.C12
